@@ -20,7 +20,7 @@ ASSUMPTIONS = [
 
 def run(tier):
     q = tier == "quick"
-    specs = [("stale_full3", 300, 2), ("stale_main2", 200, 1)] if q else [("stale_full3", 300, 2), ("stale_main2", 300, 1), ("stale_full4", 900, 3)]
+    specs = [("stale_full3", 600, 2), ("stale_main2", 400, 1)] if q else [("stale_full3", 300, 2), ("stale_main2", 300, 1), ("stale_full4", 900, 3)]
     jobs = [Job("harness.c10", n, H.shards(n, pre), b, bounds=dict(kinds=[k[0] for k in H.KINDS], rows=H._CFG[n][0], verbose="bool"),
                 rule="one path = (sequence of row kinds, -v)", describe=H.describe) for n, b, pre in specs]
     return run_check(PID, tier, jobs, H.FUNCTIONS, ASSUMPTIONS)
